@@ -86,6 +86,17 @@ func (in *dockerIn) query() string {
 	case "sumdep":
 		// containers of one app of which some carry dep="" and others no dep label at all: an empty value is not a missing label
 		return "sum by (app, dep) (count_over_time(" + sel + rng + "))"
+	case "pair":
+		// the text of the selector's first regular expression also stands in a line filter of an operand written BEFORE it
+		// (that operand selects no container): the same text is an unanchored search there and a full match in the selector
+		txt := "x"
+		for _, m := range in.Sel {
+			if m.Op == "re" || m.Op == "nre" {
+				txt = S(m.Val)
+				break
+			}
+		}
+		return "count_over_time({nosuchlabel=\"zz\"} |~ " + strconv.Quote(txt) + " " + rng + ") or count_over_time(" + sel + rng + ")"
 	case "binop":
 		return "count_over_time(" + sel + rng + ") + count_over_time(" + renderSelector(in.Sel2) + rng + ")"
 	}
@@ -449,6 +460,22 @@ func genSelect(r *rand.Rand) dockerIn {
 		in.Start, in.End = t, t
 		if in.Shape == "count" {
 			in.Range = 100
+		}
+	}
+	if in.Shape == "count" && r.Intn(2) == 0 {
+		in.Shape = "pair"
+		// a literal that is a proper part of some container's name, as a regular expression on the name
+		name := S(in.Ctrs[r.Intn(nc)].BName)
+		if len(name) >= 2 && r.Intn(2) == 0 {
+			part := name[r.Intn(2) : len(name)-1+r.Intn(2)]
+			if part != "" && !strings.ContainsAny(part, ".+*?()[]{}|^$\\") {
+				var node *ReAST = &ReAST{T: "eps"}
+				for i := len(part) - 1; i >= 0; i-- {
+					node = &ReAST{T: "cat", A: &ReAST{T: "lit", C: int(part[i])}, B: node}
+				}
+				raw, _ := json.Marshal(node)
+				in.Sel = append([]matcherIn{{Label: B("container"), Op: []string{"re", "nre"}[r.Intn(2)], Val: B(node.Text()), Re: raw}}, in.Sel...)
+			}
 		}
 	}
 	if in.Shape != "log" && in.Shape != "merge" && r.Intn(3) == 0 {
